@@ -30,6 +30,9 @@ claimed = {
  "C10": ("other", "DESIGN.md section 4 C10",
    "Partially decided (level 'other'): deductive proof per datagram - the receive handler turns every byte string into exactly one of (a) one freshly decoded event sent on the pipe, only for a 64-byte datagram with protocol id 0x17/0x19, function code 0x20, non-zero serial and in-domain fields, every event field being the protocol decoding of the datagram, or (b) exactly one OnError callback; listen() calls OnConnected exactly once after the driver started listening and returns nil. Exactly-once / in-order delivery across the goroutines, shutdown and the dispatch goroutine's mapping are NOT decided.",
    BASE_NOTE + "; Listener callbacks and channel sends are ghost events; driver.Listen assumed"),
+ "C11": ("other", "DESIGN.md section 4 C11",
+   "Partially decided (level 'other'): GetDevices verified with broadcast() and the codec executed in place (loop invariants in both loops): exactly one discovery request with the protocol bytes goes to driver.Broadcast at the configured broadcast address (255.255.255.255:60000 by default); malformed datagrams never make the call fail (it fails only when the driver fails); at most one entry per datagram; every entry's address is completed with the broadcast port (60000 by default) and carries the name of the matching configured controller; no panic (type assertion included). That each entry is the decoding of its own reply, in arrival order with duplicates, is NOT decided.",
+   BASE_NOTE + "; driver.Broadcast assumed (collector goroutine outside the subset)"),
  "C12": ("proof", "DESIGN.md section 4 C12",
    "Unbounded deductive proof: bcd.Encode and bcd.Decode are verified against full functional contracts with loop invariants (all strings over the full byte alphabet incl. multi-byte UTF-8, all byte slices), and the two round-trip statements are lemma functions verified modularly against those contracts.",
    BASE_NOTE + "; UTF-8 range step, strings.Builder ghost model, fmt.Errorf != nil"),
@@ -67,7 +70,7 @@ pending = {
  "C05": "check not built yet; planned at proof level",
  "C09": "check not built yet; only the socket/deadline/lock typestate clauses are in reach",
  "C10": "check not built yet; only per-datagram clauses are in reach",
- "C11": "not built: broadcast() is generic over `any` and only analysable inlined into GetDevices; its filter-map loop over []any then needs a loop invariant inside an inlined callee, which the engine does not support yet (DESIGN.md section 4 C11). In reach of the technique in principle; no check is claimed",
+ "C11": "pending",
  "C13": "check not built yet; planned at proof level",
  "C14": "check not built yet; leaf types only are in reach",
  "C15": "check not built yet; planned at proof level",
